@@ -1546,12 +1546,25 @@ class Parameter(_ParameterBase):
         name = self.name
         ref, relink = None, False
         if obj is not None and self.allow_refs and obj._param__private.initialized:
+            if (self.constant or self.readonly) and (
+                iscoroutinefunction(val) or inspect.isgeneratorfunction(val)
+            ):
+                # An asynchronous reference has no current value that could be
+                # identical to the one held: reject it before it is scheduled.
+                raise TypeError("%s parameter '%s' cannot be modified" % (
+                    'Read-only' if self.readonly else 'Constant', name))
             syncing = name in obj._param__private.syncing
             ref, deps, val, is_async = obj.param._resolve_ref(self, val)
             # The link is only (re)installed or dropped once the value
             # has been accepted, so that a rejected assignment has no effect.
             relink = ref is not None or (name in obj._param__private.refs and not syncing)
             if is_async or val is Undefined:
+                # There is no value to validate yet, but a constant or
+                # read-only parameter cannot be (re)linked either.
+                if self.readonly:
+                    raise TypeError("Read-only parameter '%s' cannot be modified" % name)
+                elif self.constant:
+                    raise TypeError("Constant parameter '%s' cannot be modified" % name)
                 if relink:
                     self._relink(obj, name, ref)
                 return
